@@ -322,7 +322,7 @@ func runC05(c *Check) {
 		if obj == nil {
 			continue
 		}
-		callers := c.P.CallersOf(shortName(obj.FullName()))
+		callers := c.P.CallersOf(shortName(baselineName(obj)))
 		if len(callers) == 0 {
 			continue
 		}
@@ -510,7 +510,7 @@ func runC05(c *Check) {
 			if obj == nil {
 				continue
 			}
-			for _, s := range c.P.CallersOf(shortName(obj.FullName())) {
+			for _, s := range c.P.CallersOf(shortName(baselineName(obj))) {
 				call := s.Value()
 				if call == nil || c.P.isTestFile(s.Pos()) {
 					continue
